@@ -31,6 +31,8 @@ var c10T = []truthVal{
 	{"n", func() any { return nil }, false}, {"f", func() any { return false }, false}, {"t", func() any { return true }, true},
 	{"z", func() any { return 0 }, true}, {"e", func() any { return "" }, true}, {"l", func() any { return []any{} }, true},
 	{"m", func() any { return map[string]any{} }, true}, {"x", func() any { return "x" }, true}, {"h", func() any { return 1.5 }, true},
+	// empty collections are truthy whatever their Go representation (nil slice, nil map)
+	{"ns", func() any { return []string(nil) }, true}, {"nm", func() any { return map[string]any(nil) }, true},
 }
 
 func c10Bind() map[string]any {
@@ -141,7 +143,7 @@ func c10Families(tier string) []explore.Family {
 			r.Trace()
 			o := Render(c10.eng, src, c10Bind())
 			desc := func() any {
-				return map[string]any{"template": src, "bindings": `n=nil f=false t=true z=0 e="" l=[] m={} x="x" h=1.5`}
+				return map[string]any{"template": src, "bindings": `n=nil f=false t=true z=0 e="" l=[] m={} x="x" h=1.5 ns=[]string(nil) nm=map(nil)`}
 			}
 			r.State(fmt.Sprintf("if:b=%d,sel=%d", b, sel))
 			r.Class(fmt.Sprintf("if/b%d/sel%d/else%v", b, sel, hasElse))
@@ -451,7 +453,7 @@ func init() {
 	explore.Register(&explore.Prop{
 		ID:    "C10",
 		Level: "model_checking",
-		Rule: "if/elsif/else chains with 1..4 (quick) / 1..6 (thorough) branches over every vector of the 9-value truthiness universe {nil,false,true,0,\"\",[],{},\"x\",1.5} (4 values for 5-6 branches), with/without else, each condition wrapped in a logging probe filter, plus poison variants whose conditions after the selected branch fail when evaluated; unless; case with <=2 (quick) / <=3 when-clauses of 1-2 values over U2; if/unless duality over every (pair, operator) of the C09 universe; 2-level nestings and conditionals inside loops; " +
+		Rule: "if/elsif/else chains with 1..4 (quick) / 1..6 (thorough) branches over every vector of the 11-value truthiness universe {nil,false,true,0,\"\",[],{},\"x\",1.5,nil slice,nil map} (4 values for 5-6 branches), with/without else, each condition wrapped in a logging probe filter, plus poison variants whose conditions after the selected branch fail when evaluated; unless; case with <=2 (quick) / <=3 when-clauses of 1-2 values over U2; if/unless duality over every (pair, operator) of the C09 universe; 2-level nestings and conditionals inside loops; " +
 			"state = (construct, selected branch); transition = one program rendered; trace = program validated against the reference branch selection",
 		Assumptions: []string{
 			"case selects by the implementation's own == (validated against the reference by C09)",
